@@ -211,7 +211,16 @@ def design_split(spec):
         (" (async reset)" if spec.get("async") else "")
 
 
-BUILDERS = {"expr": design_expr, "stmts": design_stmts, "memory": design_memory, "multi": design_multi, "split": design_split}
+def design_layout(spec):
+    """lib.data views: reads of every leaf, a dynamically indexed element, assignments through a field (see checks/c15.py)."""
+    from checks import c15
+    lay = c15._tup(spec["layout"])
+    D = c15.LayoutDesign(lay, spec.get("windex", 0), reset_less=False)
+    return D.m, [D.cd.clk, D.cd.rst] + D.inputs(), D.outputs(), c15.show(lay) + f"  (view design, windex={spec.get('windex', 0)})"
+
+
+BUILDERS = {"expr": design_expr, "stmts": design_stmts, "memory": design_memory, "multi": design_multi, "split": design_split,
+            "layout": design_layout}
 
 
 # ---------------------------------------------------------------------------------------- matching
